@@ -192,6 +192,8 @@ def probes():
         "ext_order_sorted": ext_order_probe(),
         # C02: a boolean passes for an integer in socket-ext options
         "sock_bool": acc(lambda: stix2.v21.SocketExt(address_family="AF_INET", options={"SO_KEEPALIVE": True})),
+        # C03: a falsy named argument ("" for a string property) is dropped by the positional-argument __init__
+        "positional_empty_string": acc(lambda: stix2.v21.StatementMarking(statement="")),
         "d2s_ext_nondict": exc_of(lambda: stix2.parse({"type": "x-unknown-type", "id": "x-unknown-type--" + u, "extensions": "abc"})),
     }
 
